@@ -37,6 +37,8 @@ type Case struct {
 	Override []string `json:"override,omitempty"` // templates replaced by a marker template
 	Empty    []string `json:"empty,omitempty"`    // templates replaced by a file without content
 	Blank    string   `json:"blank,omitempty"`    // content of those files: "" or white space only
+	Store    string   `json:"store,omitempty"`    // kind of content filesystem (store_test.go); "" = map
+	Late     bool     `json:"late,omitempty"`     // the user templates are written after markdown.New
 	Strict   bool     `json:"strict,omitempty"`
 	// kind "session": Docs are rendered one after the other on ONE Markdown instance, Via[i] says
 	// how ("bytes" = RenderBytes, "load" = Load + Render); LoadFirst loads all "load" documents
@@ -60,15 +62,30 @@ func tolerances(c Case) tol {
 // ---- rendering with vuego (the subject) ----------------------------------------------------
 
 func renderVuego(src []byte, files map[string]string) (string, error) {
+	return renderVuegoStore(src, files, "map", false)
+}
+
+// renderVuegoStore renders src with the user files in a content filesystem of the given kind
+// (store_test.go). With late set, the markdown/ templates are written into it after markdown.New
+// and before the render.
+func renderVuegoStore(src []byte, files map[string]string, store string, late bool) (string, error) {
 	var md *markdown.Markdown
 	if files == nil {
 		md = markdown.New(nil)
 	} else {
-		m := fstest.MapFS{}
-		for k, v := range files {
-			m[k] = &fstest.MapFile{Data: []byte(v), Mode: 0o644}
+		u := newStore(store)
+		var after []string
+		for _, k := range sortedKeys(files) {
+			if late && strings.HasPrefix(k, "markdown/") {
+				after = append(after, k)
+				continue
+			}
+			u.put(k, files[k])
 		}
-		md = markdown.New(m)
+		md = markdown.New(u)
+		for _, k := range after {
+			u.put(k, files[k])
+		}
 	}
 	var b bytes.Buffer
 	err := md.RenderBytes(&b, src)
@@ -241,8 +258,12 @@ func checkOverride(c Case, st *stats) error {
 		return nil
 	}
 	ref := stripBrackets.Replace(bracketed)
-	got, err := renderVuego(src, files)
-	what := fmt.Sprintf("override marker=%v empty(%q)=%v", c.Override, c.Blank, c.Empty)
+	store := c.Store
+	if store == "" {
+		store = "map"
+	}
+	got, err := renderVuegoStore(src, files, store, c.Late)
+	what := fmt.Sprintf("override marker=%v empty(%q)=%v in a %q content FS (templates written after New: %v)", c.Override, c.Blank, c.Empty, store, c.Late)
 	if err != nil {
 		return fmt.Errorf("rendering with %s failed: %v%s", what, err, describe(c.Src, ref, got))
 	}
@@ -515,6 +536,14 @@ func classifyOverride(c Case) (bool, []string) {
 			cls = append(cls, "override-hit:"+n)
 		}
 	}
+	if c.Store != "" {
+		cls = append(cls, "override-store:"+c.Store)
+	} else {
+		cls = append(cls, "override-store:map")
+	}
+	if c.Late {
+		cls = append(cls, "override-written-after-New")
+	}
 	if len(c.Empty) > 0 {
 		cls = append(cls, fmt.Sprintf("override-empty-size=%d", sizeBucket(len(c.Empty))))
 		if c.Blank == "" {
@@ -766,6 +795,34 @@ func TestProp(t *testing.T) {
 	if okAll {
 		rec.Exhaustive("empty / white-space-only override file for each template alone, with all others marked, with each single other marked, and for all templates, on the fixed all-constructs document")
 	}
+	// storage: every kind of content filesystem x templates present at New / written afterwards, for
+	// each template alone (marked, and empty) and for all templates marked
+	var stored []Case
+	for _, store := range stores {
+		for _, late := range []bool{false, true} {
+			if store == "map" && !late {
+				continue // the cases above
+			}
+			stored = append(stored, Case{Src: sink, Override: subsetOf(full), Store: store, Late: late})
+			for _, n := range templateNames {
+				stored = append(stored, Case{Src: sink, Override: []string{n}, Store: store, Late: late},
+					Case{Src: sink, Empty: []string{n}, Store: store, Late: late})
+			}
+		}
+	}
+	for i, c := range stored {
+		if i%shards != shard {
+			continue
+		}
+		nt, cls := classifyOverride(c)
+		if !run.Each(rec, "override-enum", c, nt, cls, func(c Case) error { return checkOverride(c, st) }) {
+			okAll = false
+			break
+		}
+	}
+	if okAll {
+		rec.Exhaustive("content FS kind {map, memfs, open-only, flat (no directories)} x {templates present at New, written after New}: each template alone marked, alone empty, and all marked, on the fixed all-constructs document")
+	}
 	for i, s := range subsets {
 		if i%shards != shard {
 			continue
@@ -817,7 +874,9 @@ func TestProp(t *testing.T) {
 		if len(e) > 0 {
 			blank = rapid.SampledFrom([]string{"", "", "\n", " \n\t\n", "  "}).Draw(t, "blank")
 		}
-		return Case{Src: src, Override: s, Empty: e, Blank: blank}
+		store := rapid.SampledFrom(stores).Draw(t, "store")
+		late := rapid.IntRange(0, 2).Draw(t, "late") == 2
+		return Case{Src: src, Override: s, Empty: e, Blank: blank, Store: store, Late: late}
 	}, classifyOverride, func(c Case) error { return checkOverride(c, st) })
 
 	// (4) histories: several documents on one Markdown instance, sharing link reference labels
